@@ -137,7 +137,15 @@ pub fn run(cfg: &Cfg, rep: &mut Report) {
     rep.run_stream(cfg, 2, "float_all_mantissas", (1 << 23) / chunk, |rng, i, rep| {
         for k in 0..chunk {
             let mant = i * chunk + k;
-            let low = rng.u64() & ((1 << 41) - 1);
+            // three states per mantissa: random low bits, all-ones and
+            // all-zeros below the mantissa (a sampler that looks at more
+            // than the 23 mantissa bits has its extremes there)
+            for variant in 0..3 {
+            let low = match variant {
+                0 => rng.u64() & ((1 << 41) - 1),
+                1 => (1 << 41) - 1,
+                _ => 0,
+            };
             let y = (mant << 41) | low;
             if y == 0 {
                 continue;
@@ -172,6 +180,7 @@ pub fn run(cfg: &Cfg, rep: &mut Report) {
                     return;
                 }
             }
+            }
         }
         rep.evaluations += chunk - 1;
         rep.case(i, true);
@@ -182,10 +191,10 @@ pub fn run(cfg: &Cfg, rep: &mut Report) {
             let x = Uniform(FLOAT_RANGES[3].0..FLOAT_RANGES[3].1).sample(&mut Xorshift64(s));
             rep.sample(|| Json::obj().set("mantissa", format!("{mant:#x}")).set("solved_state", format!("{s:#x}")).set("range", format!("{:?}", FLOAT_RANGES[3])).set("sample", f32s(x)));
         }
-        rep.add("float_samples", chunk * FLOAT_RANGES.len() as u64);
-        rep.add("bernoulli_samples", chunk * 7);
+        rep.add("float_samples", 3 * chunk * FLOAT_RANGES.len() as u64);
+        rep.add("bernoulli_samples", 3 * chunk * 7);
     });
-    rep.exhaustive.push(format!("all 2^23 mantissas a float draw can consume × {} ranges × 7 Bernoulli parameters", FLOAT_RANGES.len()));
+    rep.exhaustive.push(format!("all 2^23 mantissas a float draw can consume × 3 low-bit patterns (random, all ones, all zeros) × {} ranges × 7 Bernoulli parameters", FLOAT_RANGES.len()));
 
     // ---- (C) integers
     rep.run_stream(cfg, 3, "integers", cfg.n(3_000_000, 300_000_000), |rng, i, rep| {
@@ -363,7 +372,7 @@ pub fn run(cfg: &Cfg, rep: &mut Report) {
 
     rep.floor("linearity_pairs", 1_000_000);
     rep.floor("preimages_verified", 500_000);
-    rep.floor("float_samples", (1u64 << 23) * FLOAT_RANGES.len() as u64);
+    rep.floor("float_samples", 3 * ((1u64 << 23) - 1) * FLOAT_RANGES.len() as u64);
     rep.floor("int_samples", 1_000_000);
     rep.floor("shape_samples", 500_000);
     rep.floor("shape_states.circle_centre", 100_000);
